@@ -17,9 +17,14 @@
 (*             replacement at every position, append / replace / clear-and-refill for the list-like    *)
 (*             builders; the value expected at the end (and wherever the contents are a key list on    *)
 (*             the way, "peek") is the documented construction over what the slots hold then           *)
+(*             CHANGE histories (scen.chg > 0): a table that is complete AND WAS READ is changed in      *)
+(*             place - an entry replaced (by index / in the record list), the key of a record replaced,  *)
+(*             the CA flag of one / of all records changed - EVERY sequence of scen.chg such changes,    *)
+(*             and the value is read after EVERY step (every table kind, every way the object came to    *)
+(*             exist, the table held by the front end Rot(family, keys) included)                        *)
 EXTENDS Rot, Json, IOUtils
-VARIABLES mode, scen, hist, done
-gvars == <<mode, scen, hist, done>>
+VARIABLES mode, scen, hist, done, nchg          \* nchg: in-place changes made so far (change histories of mode "tab")
+gvars == <<mode, scen, hist, done, nchg>>
 Depth == atoi(IOEnv.GEN_DEPTH)
 Full  == IOEnv.MENU = "full"
 Want(m) == IOEnv.GEN_MODE = "all" \/ IOEnv.GEN_MODE = m
@@ -85,17 +90,17 @@ DevCases == UNION {UNION {UNION {
                        Case(rot, ks, [m \in 1..Len(ks) |-> DefaultEnc(rot, path)], path, IF UsesUsed(path) THEN 1 + (i % Len(ks)) ELSE 0)]
                 : cls \in (IF RotOfDev(Devices[i], DevRevName(Devices[i], j)) \in RotTypes THEN DevCls(RotOfDev(Devices[i], DevRevName(Devices[i], j)), i) ELSE {})}
                : path \in DevPaths(Devices[i])} : j \in 0..Len(Devices[i].revs)} : i \in 1..Len(Devices)}
-DevInit == /\ mode = "dev" /\ Want("dev") /\ scen = 0 /\ done = FALSE /\ Init
+DevInit == /\ mode = "dev" /\ Want("dev") /\ scen = 0 /\ done = FALSE /\ nchg = 0 /\ Init
            /\ \E x \in DevCases : /\ Legal(x.c)                                     \* cert_block_x, v2 + debug credential ...: not asserted
                                    /\ Assert(LegalFor(x.fam, x.rev, x.c), <<"device case outside the domain", x.fam, x.rev>>)
                                    /\ hist = <<[a |-> "ComputeFor", fam |-> x.fam, rev |-> x.rev, c |-> x.c, term |-> DocCase(x.c)]>>
 \* ---------------------------------------------------------------- initial states
-CaseInit == /\ mode = "case" /\ scen = 0 /\ done = FALSE /\ Init
+CaseInit == /\ mode = "case" /\ scen = 0 /\ done = FALSE /\ nchg = 0 /\ Init
             /\ \/ Want("case") /\ \E c \in Cases : hist = <<[a |-> "Compute", c |-> c, term |-> DocCase(c)]>>
                \/ /\ Want("case") \/ IOEnv.GEN_MODE = "extra"
                   /\ \E i \in 1..Len(Extra) : /\ Assert(Legal(Extra[i]), <<"illegal extra case", i>>)
                                                /\ hist = <<[a |-> "Compute", c |-> Extra[i], term |-> DocCase(Extra[i])]>>
-HistInit == /\ mode \in {"cb21", "cb1"} /\ Want(mode) /\ scen = 0 /\ done = FALSE /\ hist = <<>> /\ Init
+HistInit == /\ mode \in {"cb21", "cb1"} /\ Want(mode) /\ scen = 0 /\ done = FALSE /\ nchg = 0 /\ hist = <<>> /\ Init
 \* file scenarios: n files hold the first n keys of a class; one tool path reads them; files are rewritten with other keys
 FileScen == {s \in [rot : RotTypes, cls : Classes, n : 1..4, path : {"rkht", "rot", "cli", "pfr", "certblock_cfg", "dc", "srk_cfg", "rot_table"}, used : 0..4] :
                /\ s.path \in Paths(s.rot) /\ s.cls \in ClsOf(s.rot) /\ s.n \in NOf(s.rot) /\ s.n \in {1, 2, 4}
@@ -107,7 +112,7 @@ FileEnc(rot, path, alt) ==
   ELSE IF rot = "cert_block_1" /\ path = "certblock_cfg" THEN (IF alt THEN Enc("path", "crt.pem") ELSE Enc("path", "crt.der"))
   ELSE IF rot \in {"srk_table_ahab", "srk_table_ahab_v2"} THEN (IF alt THEN Enc("path", "pub.der") ELSE Enc("path", "pub.pem"))
   ELSE (IF alt THEN Enc("path", "crt.der") ELSE Enc("path", "pub.pem"))
-FilesInit == /\ Want("files") /\ mode = "files" /\ done = FALSE /\ obj = NoObj /\ out = NoObj /\ tab = NoTab
+FilesInit == /\ Want("files") /\ mode = "files" /\ done = FALSE /\ nchg = 0 /\ obj = NoObj /\ out = NoObj /\ tab = NoTab
              /\ \E s \in FileScen :
                   /\ scen = s
                   /\ fs = [f \in Files |-> IF f <= s.n THEN [has |-> TRUE, k |-> Key(s.cls, f), enc |-> FileEnc(s.rot, s.path, FALSE)] ELSE NoFile]
@@ -140,7 +145,7 @@ TabSels(n) == IF Full THEN FewSel(n) \cup {[i \in 1..n |-> i]} ELSE {s \in Sel(n
 TabCls(fl) == IF Full THEN ClsOf(RotOfFl(fl))
               ELSE CASE Indexed(fl) -> {"rsa2048"} [] fl = "hab" -> {"rsa2048", "p521"} [] fl = "ahab" -> {"p256", "rsa2048"} [] OTHER -> {"p384"}
 ScenBase == [fl |-> "none", origin |-> "new", m |-> 0, cls |-> "none", n |-> 0, sel |-> <<>>, repl |-> 0, repl2 |-> 0, old |-> "O", ca |-> "none",
-             cert |-> "none", used |-> 0, clear |-> FALSE, peek |-> FALSE, la |-> 0, lb |-> 0, fam |-> "", hcls |-> "none", lh |-> 0]
+             cert |-> "none", used |-> 0, clear |-> FALSE, peek |-> FALSE, la |-> 0, lb |-> 0, fam |-> "", hcls |-> "none", lh |-> 0, chg |-> 0]
 IdSel(n) == [i \in 1..n |-> i]
 \* indexed builders (RKHTv1, CertBlockV1): the order of the writes is FREE.  ro = <<slot written twice, what its first write puts, a SECOND slot
 \* that is written twice (thorough)>>
@@ -177,7 +182,7 @@ IdxScenOK(sc) == /\ (sc.old = "other" => sc.n >= 2)
 LstScens == UNION {UNION {UNION {UNION {
    {[ScenBase EXCEPT !.fl = fl, !.origin = og[1], !.m = og[2], !.cls = c, !.n = n, !.sel = s, !.repl = ro[1], !.old = ro[2],
                      !.ca = ca, !.clear = cl, !.peek = pk] :
-        og \in {<<"new", 0>>} \cup {<<o, m>> : o \in Origins(fl) \ {"new"}, m \in 1..n},
+        og \in {<<"new", 0>>} \cup {<<o, m>> : o \in Origins(fl) \ {"new", "rot"}, m \in 1..n},
         ro \in {<<0, "O">>} \cup (IF fl = "hab" THEN {<<j, o>> : j \in 1..n, o \in {"O", "other"}} ELSE {}),
         ca \in (IF fl = "hab" THEN {"none", "all", "alt"} ELSE {"none", "all"}),
         cl \in (IF fl = "hab" THEN {FALSE} ELSE BOOLEAN), pk \in (IF fl = "hab" THEN BOOLEAN ELSE {FALSE})}
@@ -211,9 +216,26 @@ HeldScens == UNION {UNION {UNION {
 HeldScenOK(sc) == /\ (sc.cls = sc.hcls => sc.la # sc.lh)
                   /\ \A c \in {sc.cls, sc.hcls} : HashLen(HashOf(c)) <= Dev(sc.fam).rotkh         \* the field takes the value (bytes)
 BCls(sc) == IF sc.hcls = "none" THEN sc.cls ELSE sc.hcls
+\* CHANGE histories: the table comes to hold n keys (built by calls / from a key list / parsed / inside the front end Rot), is READ, and is then
+\* changed in place chg times - which change at which record is NOT part of the scenario: every sequence is a history (DoChg.. below) - with a
+\* read after every step.  quick: every (builder, origin, key type, flag, n) with one change, the main lines with two; thorough: two everywhere
+\* on the quick key types, three on the main lines
+ChgN(fl)     == IF Full THEN NOf(RotOfFl(fl)) ELSE NOf(RotOfFl(fl)) \cap {2, 4}
+QuickCls(fl) == CASE Indexed(fl) -> {"rsa2048"} [] fl = "hab" -> {"rsa2048", "p521"} [] fl = "ahab" -> {"p256", "rsa2048"} [] OTHER -> {"p384"}
+MainCls(fl)  == CASE Indexed(fl) -> "rsa2048" [] fl = "hab" -> "rsa2048" [] fl = "ahab" -> "p256" [] OTHER -> "p384"
+ChgScens == UNION {UNION {UNION {
+   {[ScenBase EXCEPT !.fl = fl, !.origin = og, !.m = IF og = "new" THEN 0 ELSE n, !.cls = c, !.n = n, !.sel = IdSel(n), !.ca = ca, !.peek = TRUE, !.chg = d,
+                     !.cert = IF fl = "cb1" THEN "first" ELSE "none", !.used = u] :
+        og \in Origins(fl), ca \in (IF Indexed(fl) THEN {"none"} ELSE {"none", "all"}), d \in 1..3, u \in (IF fl = "cb1" THEN {1, n} ELSE {0})}
+   : n \in ChgN(fl)} : c \in TabCls(fl)} : fl \in {"rkht1", "cb1", "hab", "ahab", "ahab2"}}
+ChgMain(sc) == sc.origin = "new" /\ sc.ca = "none" /\ sc.cls = MainCls(sc.fl)
+ChgScenOK(sc) == /\ (sc.chg = 2 => ChgMain(sc) \/ (Full /\ sc.cls \in QuickCls(sc.fl) /\ (sc.fl = "hab" => sc.origin = "new" /\ sc.n \in {2, 4})))
+                 /\ (sc.chg = 3 => Full /\ ChgMain(sc) /\ (sc.fl = "hab" => sc.n = 2))
+                 /\ (sc.origin = "rot" => sc.ca = "none")                                  \* the front end is handed public keys
+                 /\ ~(IsRsa(sc.cls) /\ sc.fl = "ahab2")
 TabScens == {sc \in IdxScens : IdxScenOK(sc)} \cup {sc \in LstScens : LstScenOK(sc)} \cup {sc \in PfrScens : sc.la # sc.lb}
-            \cup {sc \in HeldScens : HeldScenOK(sc)}
-TabInit == /\ mode = "tab" /\ Want("tab") /\ done = FALSE /\ hist = <<>> /\ Init /\ scen \in TabScens
+            \cup {sc \in HeldScens : HeldScenOK(sc)} \cup {sc \in ChgScens : ChgScenOK(sc)}
+TabInit == /\ mode = "tab" /\ Want("tab") /\ done = FALSE /\ nchg = 0 /\ hist = <<>> /\ Init /\ scen \in TabScens
 GInit == CaseInit \/ HistInit \/ FilesInit \/ DevInit \/ TabInit
 NSet(i)   == Cardinality({x \in 1..Len(hist) : hist[x].a = "SetSlot" /\ hist[x].i = i})
 NApp      == Cardinality({x \in 1..Len(hist) : hist[x].a = "AppendSlot"})
@@ -226,7 +248,8 @@ Started == hist # <<>>
 DoStartT == ~Started /\ StartT(scen.fl, scen.origin, InitSlots(scen),
                                IF scen.fl = "cb1" /\ scen.origin = "parsed" THEN FirstK(scen, scen.used) ELSE NoKey)
 \* peek: as soon as the contents are a key list and were not read yet, they are read (deterministic: no subsets of reading points)
-MustPeek == scen.peek /\ Started /\ TabLegal(tab) /\ ~LastIs("ComputeT") /\ ~LastIs("StartT")
+\* (a change history also reads an object that came to exist complete - before anything is changed)
+MustPeek == scen.peek /\ Started /\ TabLegal(tab) /\ ~LastIs("ComputeT") /\ (IF scen.chg > 0 THEN TRUE ELSE ~LastIs("StartT"))
 CertNow(when) == scen.fl = "cb1" /\ scen.origin # "parsed" /\ scen.cert = when /\ tab.cert = NoKey
 DoAddCertificate == /\ Started /\ ~MustPeek
                     /\ \/ CertNow("first") /\ LastIs("StartT")
@@ -235,6 +258,7 @@ DoAddCertificate == /\ Started /\ ~MustPeek
 IdxReady == Started /\ Indexed(scen.fl) /\ ~MustPeek /\ ~(CertNow("first") /\ LastIs("StartT"))
 DoSetSlot == /\ IdxReady
              /\ \E i \in 1..scen.n : /\ Writes(i) < Needed(i)
+                                     /\ (scen.chg > 0 => \A j \in 1..(i - 1) : Writes(j) >= Needed(j))   \* change histories fill in order
                                      /\ SetSlot(i, IF Writes(i) = 0 THEN FirstK(scen, i) ELSE TargetK(scen, i), FormOf(scen, i))
 \* list-like: phase 1 (only with clear) fill with the reversed list, compute, clear; phase 2 append slot by slot, the replaced entry
 \* (HAB) first gets its old content and is overwritten at ANY later point
@@ -252,7 +276,24 @@ DoAppendSlot == /\ LstReady /\ Phase2 /\ NextIdx <= scen.n
 DoReplace == /\ LstReady /\ Phase2 /\ scen.repl > 0 /\ scen.repl <= Len(tab.slots) /\ NSet(scen.repl) = 0
              /\ SetSlot(scen.repl, TargetK(scen, scen.repl), FormOf(scen, scen.repl))
 LstWritten == Phase2 /\ Len(tab.slots) = scen.n /\ (scen.repl > 0 => NSet(scen.repl) = 1)
-TabWritten == IF Indexed(scen.fl) THEN AllWritten /\ ~CertNow("last") ELSE IF Whole(scen.fl) THEN NAll = 3 ELSE LstWritten
+\* the contents the scenario names are in place (once the in-place changes have begun they were)
+\* (IF, not \/: TLC splits an action at a disjunction in its guard and would emit the history once per true disjunct)
+BaseWritten == IF nchg > 0 THEN TRUE ELSE IF Indexed(scen.fl) THEN AllWritten /\ ~CertNow("last") ELSE LstWritten
+TabWritten == IF Whole(scen.fl) THEN NAll = 3 ELSE BaseWritten /\ nchg = scen.chg
+\* in-place changes of a table that is complete and WAS READ.  The new key: a key of the pool the table does not hold; if it holds the whole
+\* pool of its type (RSA: four keys per size) the key of the next slot - a duplicate from then on.  A replaced entry keeps the flag it had.
+CurIds    == {tab.slots[j].k.id : j \in 1..Len(tab.slots)}
+FreeIds   == (1..(IF IsRsa(scen.cls) THEN 4 ELSE 6)) \ CurIds
+ChgKey(i) == IF FreeIds # {} THEN Key(scen.cls, CHOOSE x \in FreeIds : \A y \in FreeIds : x <= y) ELSE tab.slots[(i % scen.n) + 1].k
+CurForm(i) == CASE Indexed(scen.fl) -> FormOf(scen, i) [] scen.fl = "hab" -> (IF tab.slots[i].ca THEN "ca" ELSE "crt")
+                [] OTHER -> (IF tab.slots[i].ca THEN "pubca" ELSE "pub")
+ChgReady   == Started /\ scen.chg > 0 /\ nchg < scen.chg /\ ~Whole(scen.fl) /\ BaseWritten /\ LastIs("ComputeT")
+DoChgSet   == ChgReady /\ \E i \in 1..scen.n : ChgKey(i) # tab.slots[i].k /\ SetSlot(i, ChgKey(i), CurForm(i))
+DoChgRekey == ChgReady /\ ~Indexed(scen.fl) /\ \E i \in 1..scen.n : ChgKey(i) # tab.slots[i].k /\ Rekey(i, ChgKey(i))
+DoChgCa    == /\ ChgReady /\ ~Indexed(scen.fl)
+              /\ \/ SetCa(0, ~tab.slots[1].ca)
+                 \/ scen.fl = "hab" /\ scen.n > 1 /\ \E i \in 1..scen.n : SetCa(i, ~tab.slots[i].ca)
+ChgNext    == DoChgSet \/ DoChgRekey \/ DoChgCa
 DoComputeT == /\ Started /\ ~LastIs("ComputeT")
               /\ \/ MustPeek
                  \/ TabWritten
@@ -296,15 +337,17 @@ FilesNext == mode = "files" /\ (DoRead \/ DoRewrite)
 Steps == IF mode = "files" THEN Len(hist) - scen.n ELSE Len(hist)
 Limit == IF mode \in {"case", "dev"} THEN 1 ELSE IF mode = "cb21" /\ Len(hist) > 0 /\ hist[1].cons = 1 /\ hist[1].isk THEN 3 ELSE Depth + (IF mode = "files" THEN 0 ELSE 1)
 GNext == \/ /\ mode # "tab" /\ Steps < Limit /\ (Cb21Next \/ Cb1Next \/ FilesNext)
-            /\ hist' = Append(hist, act') /\ UNCHANGED <<mode, scen, done>>
-         \/ /\ mode = "tab" /\ ~done /\ ~TabComplete /\ TabNext
+            /\ hist' = Append(hist, act') /\ UNCHANGED <<mode, scen, done, nchg>>
+         \/ /\ mode = "tab" /\ ~done /\ ~TabComplete
+            /\ \/ TabNext /\ nchg' = nchg
+               \/ ChgNext /\ nchg' = nchg + 1
             /\ hist' = Append(hist, act') /\ UNCHANGED <<mode, scen, done>>
          \/ /\ mode = "tab" /\ ~done /\ TabComplete /\ done' = TRUE
             /\ PrintT(ToJson([mode |-> mode, scen |-> scen, hist |-> hist]))
-            /\ UNCHANGED <<vars, mode, scen, hist>>
+            /\ UNCHANGED <<vars, mode, scen, hist, nchg>>
          \/ /\ mode # "tab" /\ Steps = Limit /\ ~done /\ done' = TRUE
             /\ PrintT(ToJson([mode |-> mode, hist |-> hist]))
-            /\ UNCHANGED <<vars, mode, scen, hist>>
+            /\ UNCHANGED <<vars, mode, scen, hist, nchg>>
 
 \* ---------------------------------------------------------------- lemmas over the case space (term algebra)
 C0 == hist[1].c
@@ -357,7 +400,7 @@ LastWriteWins == IsTabC /\ Indexed(scen.fl) =>
                    /\ \A i \in (Len(act.keys) + 1)..4 : LastSet(i) = NoKey
 \* ORDER FREE: whatever the order of the writes, once everything is written the value is the documented construction over the TARGET
 \* of the scenario - the same term for every history of the scenario
-TargetReached == IsTabC /\ TabWritten /\ ~Whole(scen.fl) =>
+TargetReached == IsTabC /\ TabWritten /\ ~Whole(scen.fl) /\ scen.chg = 0 =>
                    LET ks == [i \in 1..scen.n |-> TargetK(scen, i)]
                        cas == [i \in 1..scen.n |-> CaOf(scen.fl, FormOf(scen, i))] IN
                    act.keys = ks /\ act.term = Doc(RotOfFl(scen.fl), ks, cas) /\ act.table = DocTable(RotOfFl(scen.fl), ks, cas)
@@ -365,7 +408,15 @@ TargetReached == IsTabC /\ TabWritten /\ ~Whole(scen.fl) =>
 PfrBack == IsTabC /\ Whole(scen.fl) /\ TabWritten =>
              /\ act.keys = PfrList(scen.cls, scen.la) /\ act.term = hist[3].term /\ hist[5].keys = PfrList(BCls(scen), scen.lb) /\ hist[5].term # act.term
 \* the certificate of a v1 block points at the slot that holds its key at the end, wherever it was added
-CertPoints == IsTabC /\ TabWritten /\ scen.fl = "cb1" => act.index = scen.used
+CertPoints == IsTabC /\ BaseWritten /\ nchg = 0 /\ scen.fl = "cb1" => act.index = scen.used
+\* A CHANGE SHOWS: the value (and the table) read after an in-place change is not the one read before it - every change of a change history
+\* changes the contents, so an object that answers the second read with what it computed for the first cannot conform
+Changes == {"SetSlot", "Rekey", "SetCa"}
+ChangeShows == IsTabC /\ nchg > 0 /\ Len(hist) >= 3 /\ hist[Len(hist) - 1].a \in Changes /\ hist[Len(hist) - 2].a = "ComputeT" =>
+                 /\ act.term # hist[Len(hist) - 2].term /\ act.table # hist[Len(hist) - 2].table
+\* ... and a change history reads after EVERY step from the first complete table on: no two writes without a read between them
+ReadEveryStep == mode = "tab" /\ scen.chg > 0 /\ nchg > 0 /\ Len(hist) >= 2 =>
+                   ~(hist[Len(hist)].a \in Changes /\ hist[Len(hist) - 1].a \in Changes)
 \* ---------------------------------------------------------------- invariants of the histories
 BlockLen == mode = "cb21" /\ act.a = "Export21" =>
    act.term.len = (LET o == out  c == o.keys[1].cls  n == Len(o.keys) IN
